@@ -47,6 +47,9 @@ def label_of(lab, k, id_, md):
     if kind == 'assign':
         g = lab['labels'][k]
         return None if g is None else 'g%d' % g
+    if kind == 'raw':
+        # labels that are not strings: integers (an id hash modulo k yields 0), booleans, the empty string
+        return lab['labels'][k]
     if kind == 'hash':
         return 'h%d' % (sum(ord(c) for c in id_) % 3)
     if kind == 'md':
@@ -454,6 +457,14 @@ def partition_family_cases(tier):
                     for re_, ign in ((False, False), (True, True), (False, True)):
                         yield dict(st, axis=axis, labeler={'kind': 'assign', 'labels': labels}, form=form,
                                    remove_empty=re_, ignore_none=ign)
+            # falsy labels that are not None: 0 (id hash modulo k), False, '' must be kept like any other label
+            for labels in ([k % 2 for k in range(size)], [None if k == 0 else (k % 2) for k in range(size)],
+                           ['' if k % 2 else 'x' for k in range(size)], [bool(k % 2) for k in range(size)]):
+                # the id -> group dict form is only defined for text groups
+                for form in (('function', 'dict_id2grp') if all(isinstance(l, str) for l in labels) else ('function',)):
+                    for ign in (False, True):
+                        yield dict(st, axis=axis, labeler={'kind': 'raw', 'labels': labels}, form=form,
+                                   remove_empty=False, ignore_none=ign)
 
 
 def collapse_cases(tier):
